@@ -54,7 +54,6 @@ package client
 //@   assert at call field Client.handler#0: [connected-comes-first C18] delivered == old(delivered) && !c.connected
 //@   assert at call noti#0: [update-stamped-with-the-notification-time C01] tinst(arg2) == n.Timestamp && arg1 == u.Path && arg3 == u
 //@   assert at call noti#1: [delete-stamped-with-the-notification-time C01] tinst(arg2) == n.Timestamp && arg1 == d && arg3 == nil
-//@   assert at call fmt.Errorf#3: [only-an-update-without-a-path-is-refused C01] u.Path == nil
 //@   ensures [sync-is-delivered C18 C01] isa(msg.(*gpb.SubscribeResponse)) && isa(msg.(*gpb.SubscribeResponse).Response.(*gpb.SubscribeResponse_SyncResponse)) ==>
 //@     delivered == old(delivered) + ite(old(c.connected), 0, 1) + 1 && (res0 == client.ErrStopReading <==> c.query.Type == client.Poll || c.query.Type == client.Once)
 //@     && (res0 == nil <==> !(c.query.Type == client.Poll || c.query.Type == client.Once))
